@@ -728,7 +728,7 @@ def _cmp_decide(n, dkey, v, consts=None):
     return None
 
 
-def edpe_blocks(f, dkey, v, extra_decide=None):
+def edpe_blocks(f, dkey, v, extra_decide=None, start=None, blocked=()):
     """Blocks of f reachable when every branch on `dkey` is decided for value v.
     Branches on anything else are explored both ways.  dkey is a key() string such
     as 't->type'.  Sound over-approximation provided dkey is not reassigned on the
@@ -736,12 +736,14 @@ def edpe_blocks(f, dkey, v, extra_decide=None):
     cfg = f.cfg
     nodes = f.nodes
     seen = set()
-    st = [cfg.entry]
+    st = [cfg.entry if start is None else start]
     while st:
         bid = st.pop()
         if bid in seen:
             continue
         seen.add(bid)
+        if bid in blocked:
+            continue
         b = cfg.blocks[bid]
         if b.noret:
             # still record the block (it holds the terminating call); no successors
